@@ -96,7 +96,7 @@ func (s *pathState) clone() *pathState {
 type tracer struct {
 	p        *Program
 	prims    map[string]string
-	inline   map[string]bool // callees to inline
+	inline   map[string]bool        // callees to inline
 	noAuto   func(name string) bool // framer methods that are deliberately not followed
 	unsup    []string
 	maxPaths int
